@@ -28,7 +28,7 @@ ROW_ADDING = {"concat", "merge", "append", "_append", "join", "explode", "repeat
 ALLOWED_AFTER = {"_fillna_and__numeric_cast", "reset_index", "copy", "apply", "get_rank_variable_bounds_for_all_einsums", "list", "keys", "iterrows", "MappingFromRow", "Mappings"}
 
 
-def check(ctx):
+def _core(ctx):
     R = "C02-P1"
     ctx.doc(R, "must-pass-through with ordering: EDP rewrite, then a deduplicating Pareto filter, then nothing that can add or duplicate rows")
     fi = ctx.func(JP, "clean_compress_and_join_pmappings", R)
@@ -142,7 +142,23 @@ def check(ctx):
     ctx.floor(R, 7)
 
 
+
+def _p5_p6(ctx):
+    # completeness side: the only row filter applied between join rounds is one-sided (same rule as C14-A5), and
+    # the kernel behind every make_pareto visits all compared columns (same rule as C11-N9)
+    from . import c11, c14
+    c14._a5(ctx, "C02-P5")
+    core = ctx.func("accelforge/mapper/FFM/_pareto_df/fast_pareto.py", "_sfs_bnl_core", "C02-P6")
+    c11._n9(ctx, core, "C02-P6")
+
+
+def check(ctx):
+    _core(ctx)
+    _p5_p6(ctx)
+
 VARIANTS = [
+    {"kind": "F", "name": "sum-key-skips-last-column", "rule": "C02-P6", "edits": [("accelforge/mapper/FFM/_pareto_df/fast_pareto.py", "            s = 0.0\n            for kk in range(dv):\n                s += local[i, kk]", "            s = 0.0\n            for kk in range(dv - 1):\n                s += local[i, kk]")]},
+    {"kind": "F", "name": "thresholder-skips-absent-column", "rule": "C02-P5", "edits": [(JP, "                if k not in edp_mapping.columns:\n                    nondominated |= True\n                else:\n                    nondominated |= edp_mapping[k] <= v", "                if k not in edp_mapping.columns:\n                    continue\n                nondominated |= edp_mapping[k] <= v")]},
     {"kind": "F", "name": "delete-final-make_pareto", "rule": "C02-P1", "edits": [(JP, "    # objectives.\n    joined.make_pareto()\n", "    # objectives.\n")]},
     {"kind": "F", "name": "filter-before-edp", "rule": "C02-P1", "edits": [(JP, "    _apply_edp_columns(joined.data, metrics)\n    # Pareto prune again in case the EDP column application reduced number of\n    # objectives.\n    joined.make_pareto()\n",
                                                                        "    joined.make_pareto()\n    _apply_edp_columns(joined.data, metrics)\n")]},
